@@ -914,13 +914,12 @@ PROFILES = {
     # aggregate pressure (tools/gen/aggrgen.py): many live multi-word values, writes into their middles, single-word results
     # of stateful operations in between, every leaf read back at the end
     # core + one stateless function that calls itself (a literal number of times)
-    "rec": dict(avoid_f3=True, recursion=True),
     # lambdas inside lambdas (a closure created by a closure captures variables of every enclosing level); `_assign`: and assigns them
-    "nested": dict(avoid_f3=True, lam_depth=3, depth=4),
-    "nested_assign": dict(avoid_f3=True, lam_depth=3, depth=4, closure_assign=True),
-    "tupassign": dict(avoid_f3=True, tuple_assign=True),
-    "tupassign_nr": dict(avoid_f3=True, tuple_assign=True, rounding=False),
-    "g6": dict(avoid_f3=True, lam_depth=3, depth=4, closure_assign=True, avoid_g6=False),
+    "nested": dict(lam_depth=3, depth=4),
+    "nested_assign": dict(lam_depth=3, depth=4, closure_assign=True),
+    "tupassign": dict(tuple_assign=True),
+    "tupassign_nr": dict(tuple_assign=True, rounding=False),
+    "g6": dict(lam_depth=3, depth=4, closure_assign=True, avoid_g6=False),
     "rec": dict(recursion=True),
     "aggr": dict(gen="aggr"),
     "aggr_nofn": dict(gen="aggr", fn_fields=False),
